@@ -24,7 +24,7 @@ from vlib.oracles import model as M
 from vlib.report import unjson_array
 
 ID = "C09"
-TECHNIQUE = "runtime monitoring: llk traces vs recomputed likelihood, cache on/off/resized trajectory equality with a cache-tuple watcher, wrapped cached-likelihood functions under NUMBA_DISABLE_JIT, arraymap vs dict model, inspection of caller-supplied cache contents"
+TECHNIQUE = "runtime monitoring: llk traces vs recomputed likelihood, cache on/off/resized trajectory equality with a cache-tuple watcher, wrapped cached-likelihood functions under NUMBA_DISABLE_JIT, arraymap vs dict model, inspection of caller-supplied cache contents; real mchap assemble under every --mcmc-llk-cache-threshold setting with and without tempering; sampler objects re-fitted on other reads vs fresh objects"
 LEVEL = "exploration"
 LEVEL_TEXT = (
     "Exploration: the assemble, call and call-pedigree samplers were run on generated instances (ploidy 2-6, 2-10 sites, "
@@ -40,6 +40,7 @@ RULE = (
     "case = one sampler run (instance, seed, cache setting), one arraymap history or one pedigree/call cache inspection; "
     "non-trivial = the run used a cache and performed at least one insertion; distinct by hash of (instance, seed, setting)"
 )
+LEVEL_TEXT += ' The real mchap assemble was run under --mcmc-llk-cache-threshold -1, 0, small, 100, large and 10^6, without and with tempering (list and per-sample file): identical records; DenovoMCMC and PedigreeCallingMCMC objects fitted a second time on other reads behave as fresh objects.'
 ASSUMPTIONS = ["a flushed arraymap may forget values (miss), it may never return a wrong one", "states with zero likelihood are not visited"]
 
 
